@@ -5,6 +5,11 @@ import json, sys
 TECH = "bounded-exhaustive explicit-state exploration of the real code (own explorer / enumerators), "
 
 CHECKS = {
+ "C15": dict(
+   text="(a) BFS over builder-call histories of the real SelectStatement (QModel menu + named WINDOW, window-name items, TABLESAMPLE, index hints, DISTINCT ON, empty condition groups; every field of the struct is reachable) to depth 3 (quick) / 4 (thorough); in EVERY reached state: take() (result == and Debug-equal to the statement before, identical rendering on 3 backends, builder left == SelectStatement::new()), clone independence under every enabled op, and clear_selects / from_clear / reset_limit / reset_offset / clear_order_by each compared with the statement rebuilt from scratch from the history without that clause's calls. (b) clear_order_by on UPDATE / DELETE / WindowStatement over all subsets of their builder calls. (c) take() and Clone of TableCreate / Alter / Drop / Rename / Truncate, IndexCreate, ForeignKeyCreate, TableForeignKey, TableIndex, ColumnDef, WindowStatement (and Clone of InsertStatement) over ALL subsets of 1..14 builder calls each.",
+   note="Trusted: `rebuilt from scratch` uses the same real builder calls (differential: state reached from the initial state vs state reached from elsewhere). Argument values are fixed per op; NaN values are not used.",
+   technique=TECH+"BFS over builder-call histories with probes in every state; all subsets of builder calls for the other types; oracle = equality with the pre-image / rebuilt state",
+   ref="3.15"),
  "C16": dict(
    text="Every string over a 19-symbol token-relevant alphabet up to length 5 (quick) / 7 (thorough), and every Unicode scalar in four contexts, is run through the real Tokenizer; termination (watchdog), non-empty tokens, losslessness, quoted-span integrity (reference scanner written from the property's words) and unquote are checked on each. Exhaustive within that bound; nothing sampled.",
    note="Trusted: the 40-line reference scanner for quoted spans; strings longer than the bound or using symbols outside the alphabet classes are not covered.",
